@@ -153,4 +153,20 @@ theorem brokeGE_of_total (thr : Rat) (l : List Rat) (d : Rat) (hd : d < thr) (h 
       simp only [sqsum] at h
       exact ih (d + x * x) (not_le.mp hx) (by linarith)
 
+/-- when the loop reaches its `break`, the break index is a valid position -/
+theorem dropGE_lt_of_broke (thr : Rat) (l : List Rat) (d : Rat) (hb : brokeGE thr l d = true) :
+    dropGE thr l d < l.length := by
+  induction l generalizing d with
+  | nil => simp [brokeGE] at hb
+  | cons x xs ih =>
+    unfold dropGE
+    unfold brokeGE at hb
+    split
+    · simp
+    · rename_i hx
+      simp only [hx, if_false] at hb
+      have := ih (d + x * x) hb
+      simp only [List.length_cons]
+      omega
+
 end Yaqs.Rank
